@@ -509,6 +509,15 @@ func newRegMachine(cfg config.Config, user sm.IStateMachine, ss rsm.ISnapshotter
 		batch: make([]rsm.Task, 0, 8), apply: make([]sm.Entry, 0, 8)}
 }
 
+// newConMachine is newRegMachine for a concurrent state machine (the kind whose updates may be
+// applied through the batched path).
+func newConMachine(cfg config.Config, user sm.IConcurrentStateMachine, ss rsm.ISnapshotter) *machine {
+	node := newRecNode(cfg.ShardID, cfg.ReplicaID)
+	managed := rsm.NewNativeSM(cfg, rsm.NewConcurrentStateMachine(user), node.stopc)
+	return &machine{sm: rsm.NewStateMachine(managed, ss, cfg, node, nil), node: node,
+		batch: make([]rsm.Task, 0, 8), apply: make([]sm.Entry, 0, 8)}
+}
+
 // feed applies entries through the task queue cut into tasks of the given
 // sizes (cycled; nil means one task per entry). A negative size -n queues a
 // task of n entries without calling Handle yet, so that one Handle call sees
